@@ -68,3 +68,49 @@ pub open spec fn valid_directive_def(def: &AstDirectiveDefinition, d: &Definitio
     &&& !reserved(def.name.name@)
     &&& (def.arguments is Some ==> valid_argsdef(&def.arguments->Some_0, d))
 }
+
+// ---- 3.6 Objects / 3.7 Interfaces: fields and implemented interfaces
+use crate::nitrogql_ast::type_system::{ObjectTypeDefinition, InterfaceTypeDefinition};
+pub open spec fn field_names(v: Seq<FieldDefinition>) -> Seq<Seq<char>> { Seq::new(v.len(), |k: int| v[k].name.name@) }
+/// one field definition: reserved name, directives at FIELD_DEFINITION, output type, valid argument definitions
+pub open spec fn fielddef_ok(f: FieldDefinition, d: &DefinitionMap) -> bool {
+    &&& !reserved(f.name.name@)
+    &&& dirs_valid(&d.type_system, no_vars(), f.directives@, "FIELD_DEFINITION"@)
+    &&& type_is_known_output(d, f.r#type)
+    &&& (f.arguments is Some ==> valid_argsdef(&f.arguments->Some_0, d))
+}
+pub open spec fn fields_ok_upto(fields: Seq<FieldDefinition>, d: &DefinitionMap, n: int) -> bool {
+    &&& nodup(field_names(fields).take(n))
+    &&& forall|i: int| 0 <= i < n ==> fielddef_ok(#[trigger] fields[i], d)
+}
+/// IsValidImplementation(type, implementedType) (spec 3.6.1 step 4.2): decided by check_valid_implementation, which is
+/// outside Verus' reach (flat_map); its verdict is an ASSUMED contract here
+pub uninterp spec fn valid_implementation(d: &DefinitionMap, name: crate::nitrogql_ast::base::Ident, fields: Seq<FieldDefinition>,
+    implements: Seq<crate::nitrogql_ast::base::Ident>, iface: &InterfaceTypeDefinition) -> bool;
+/// one `implements` entry: names a defined Interface type (3.6.1 step 4 / 3.7.1) that is validly implemented
+pub open spec fn implements_ok(d: &DefinitionMap, name: crate::nitrogql_ast::base::Ident, fields: Seq<FieldDefinition>,
+    implements: Seq<crate::nitrogql_ast::base::Ident>, i: int) -> bool {
+    &&& d.types@.contains_key(implements[i].name)
+    &&& d.types@[implements[i].name] is Interface
+    &&& valid_implementation(d, name, fields, implements, &d.types@[implements[i].name]->Interface_0)
+}
+pub open spec fn object_head_ok(o: &ObjectTypeDefinition, d: &DefinitionMap) -> bool {
+    !reserved(o.name.name@) && dirs_valid(&d.type_system, no_vars(), o.directives@, "OBJECT"@)
+}
+pub open spec fn valid_object(o: &ObjectTypeDefinition, d: &DefinitionMap) -> bool {
+    &&& object_head_ok(o, d)
+    &&& fields_ok_upto(o.fields@, d, o.fields@.len() as int)
+    &&& forall|i: int| 0 <= i < o.implements@.len() ==> #[trigger] implements_ok(d, o.name, o.fields@, o.implements@, i)
+}
+pub open spec fn interface_head_ok(o: &InterfaceTypeDefinition, d: &DefinitionMap) -> bool {
+    !reserved(o.name.name@) && dirs_valid(&d.type_system, no_vars(), o.directives@, "INTERFACE"@)
+}
+/// 3.7.1: an interface may not implement itself
+pub open spec fn iface_implements_ok(o: &InterfaceTypeDefinition, d: &DefinitionMap, i: int) -> bool {
+    o.implements@[i].name@ != o.name.name@ && implements_ok(d, o.name, o.fields@, o.implements@, i)
+}
+pub open spec fn valid_interface(o: &InterfaceTypeDefinition, d: &DefinitionMap) -> bool {
+    &&& interface_head_ok(o, d)
+    &&& fields_ok_upto(o.fields@, d, o.fields@.len() as int)
+    &&& forall|i: int| 0 <= i < o.implements@.len() ==> #[trigger] iface_implements_ok(o, d, i)
+}
